@@ -880,7 +880,11 @@ func unpackMain(argv []string) {
 		}
 	}
 	krec(nil)
-	for _, ks := range klists {
+	for ki, ks := range klists {
+		// the sampled tier runs a seeded tenth of the variable lists (all of the lists of <= 1 variable)
+		if *frac < 1 && len(ks) > 1 && mix(*seed, uint64(ki), 99)%10 != 0 {
+			continue
+		}
 		for min := 0; min <= len(ks); min++ {
 			for npos := 0; npos <= 4; npos++ {
 				for nkw := 0; nkw <= 1; nkw++ {
